@@ -41,24 +41,38 @@ fn get_entity_info_for(element: &impl Commentable) -> EntityInfo {
     }
 }
 
-/// Returns a [`DocComment`] describing the provided parameter if one is present.
+/// Returns a [`DocComment`] describing the provided parameter (or return member) if one is present.
 ///
-/// In Slice, doc-comments are not allowed on parameters. Instead, you would use a '@param' tag applied to an enclosing
-/// operation. But this is an implementation detail of the language, not something code-generators should deal with.
-fn get_doc_comment_for_parameter(parameter: &GrammarParameter) -> Option<DocComment> {
-    let operation_comment = parameter.parent().comment()?;
+/// In Slice, doc-comments are not allowed on parameters. Instead, you would use a '@param' tag (or a '@returns' tag for
+/// return members) applied to an enclosing operation. But this is an implementation detail of the language, not
+/// something code-generators should deal with.
+fn get_doc_comment_for_parameter(parameter: &GrammarParameter, is_return_member: bool) -> Option<DocComment> {
+    let operation = parameter.parent();
+    let operation_comment = operation.comment()?;
 
     // We get the parameter's doc-comment in 3 steps:
-    // 1) Try to find a matching '@param' tag on the operation's doc-comment.
+    // 1) Try to find a matching '@param' tag (or '@returns' tag for return members) on the operation's doc-comment.
+    //    A '@returns' tag without an identifier describes the return member of an operation that has only one.
     // 2) If one was present, extract just its `Message` field, and convert it to the mapped type.
     // 3) Construct a mapped `DocComment` which contains the mapped message.
-    operation_comment.params.iter()
-        .find(|param_tag| param_tag.identifier.value == parameter.identifier())
-        .map(|param_tag| param_tag.message.value.iter().map(Into::into).collect())
-        .map(|message| DocComment {
-            overview: message,
-            see_tags: Vec::new(),
-        })
+    let message = if is_return_member {
+        let has_single_return_member = operation.return_members().len() == 1;
+        operation_comment.returns.iter()
+            .find(|returns_tag| match &returns_tag.identifier {
+                Some(identifier) => identifier.value == parameter.identifier(),
+                None => has_single_return_member,
+            })
+            .map(|returns_tag| &returns_tag.message)
+    } else {
+        operation_comment.params.iter()
+            .find(|param_tag| param_tag.identifier.value == parameter.identifier())
+            .map(|param_tag| &param_tag.message)
+    };
+
+    message.map(|message| DocComment {
+        overview: message.value.iter().map(Into::into).collect(),
+        see_tags: Vec::new(),
+    })
 }
 
 /// Helper function to convert the result of `tag.linked_entity()` into an [`EntityId`].
@@ -255,12 +269,12 @@ impl SliceFileContentsConverter {
         Operation {
             entity_info: get_entity_info_for(operation),
             is_idempotent: operation.is_idempotent,
-            parameters: operation.parameters().into_iter().map(|e| self.convert_parameter(e)).collect(),
+            parameters: operation.parameters().into_iter().map(|e| self.convert_parameter(e, false)).collect(),
             has_streamed_parameter: operation
                 .parameters
                 .last()
                 .is_some_and(|parameter| parameter.borrow().is_streamed),
-            return_type: operation.return_members().into_iter().map(|e| self.convert_parameter(e)).collect(),
+            return_type: operation.return_members().into_iter().map(|e| self.convert_parameter(e, true)).collect(),
             has_streamed_return: operation
                 .return_type
                 .last()
@@ -268,11 +282,11 @@ impl SliceFileContentsConverter {
         }
     }
 
-    fn convert_parameter(&mut self, parameter: &GrammarParameter) -> Field {
+    fn convert_parameter(&mut self, parameter: &GrammarParameter, is_return_member: bool) -> Field {
         let parameter_info = EntityInfo {
             identifier: parameter.identifier().to_owned(),
             attributes: get_attributes_from(parameter.attributes()),
-            comment: get_doc_comment_for_parameter(parameter),
+            comment: get_doc_comment_for_parameter(parameter, is_return_member),
         };
 
         Field {
